@@ -646,6 +646,27 @@ account(struct totals * T, const struct outcome * o, FILE * hf)
 	}
 }
 
+struct clsrec { char key[140]; int n; };
+
+static int
+should_report(void * tab, int * n, const struct outcome * o, int cap)
+{
+	struct clsrec * c = tab;
+	char key[140];
+	int i;
+
+	snprintf(key, sizeof(key), "%d|%.39s|%.90s", o->kind, o->oracle, o->sig);
+	for (i = 0; i < *n; i++)
+		if (!strcmp(c[i].key, key))
+			return (c[i].n++ < cap);
+	if (*n >= 128)
+		return (0);
+	snprintf(c[*n].key, sizeof(c[*n].key), "%s", key);
+	c[*n].n = 1;
+	(*n)++;
+	return (1);
+}
+
 static int
 batch(uint64_t first, uint64_t count, const char * prefix, int maxreport)
 {
@@ -654,7 +675,11 @@ batch(uint64_t first, uint64_t count, const char * prefix, int maxreport)
 	char path[600];
 	FILE * jf, * hf, * of;
 	uint64_t s;
-	int reported = 0, i;
+	int i;
+	/* report cap per violation class, so that a frequent (e.g. known) class cannot hide a rare new one */
+	struct { char key[140]; int n; } cls[128];
+	int ncls = 0;
+#define SHOULD_REPORT(o) should_report(cls, &ncls, (o), maxreport)
 	struct timeval t0, t1;
 
 	memset(&T, 0, sizeof(T));
@@ -683,7 +708,7 @@ batch(uint64_t first, uint64_t count, const char * prefix, int maxreport)
 		run_one(NULL, s, 1, &o);
 		account(&T, &o, hf);
 		if (o.kind != 0) {
-			if (reported++ < maxreport)
+			if (SHOULD_REPORT(&o))
 				print_outcome(jf, "v", s, &o);
 			continue;
 		}
@@ -714,7 +739,7 @@ batch(uint64_t first, uint64_t count, const char * prefix, int maxreport)
 						run_one(NULL, s, 1, &o);
 						account(&T, &o, hf);
 						T.af_points++;
-						if (o.kind != 0 && reported++ < maxreport)
+						if (o.kind != 0 && SHOULD_REPORT(&o))
 							print_outcome(jf, "v", s, &o);
 					}
 				}
@@ -760,7 +785,7 @@ main(int argc, char ** argv)
 	int i;
 	const char * mode = NULL;
 	const char * a1 = NULL, * a2 = NULL, * a3 = NULL;
-	int maxreport = 200;
+	int maxreport = 60;
 
 	for (i = 1; i < argc; i++) {
 		if (!strcmp(argv[i], "--prop") && i + 1 < argc)
